@@ -262,6 +262,15 @@ func init() {
 		MinNontrivial: 1000,
 		Run: func(c *core.Ctx) {
 			fixed := c10Fixed()
+			{
+				// programs ending in the stack-overflow runtime error
+				var b strings.Builder
+				for k := 0; k < 1024; k++ {
+					fmt.Fprintf(&b, "var v%d\n", k)
+				}
+				fixed = append(fixed, b.String()+"print 1\n", b.String()+"print v3\n", "print "+strings.Repeat("1+(", 1030)+"1"+strings.Repeat(")", 1030)+"\n",
+					strings.Repeat("def b { x = 1\n", 17)+strings.Repeat("}\n", 17))
+			}
 			for k, src := range fixed {
 				if c.Mine(int64(k)) && len(src) < 50000 {
 					c.Begin(int64(k))
